@@ -831,6 +831,13 @@ func scenarios(dist hx.Counter) []*hist {
 	h.edit(nb)
 	h.mint(2, []int{1, 2}, []int64{100, 100})
 	hs = append(hs, h)
+	// any swap on a basket without reserves (AverageDisbalance divides by the zero average)
+	h = startHist("scenario:swap_on_basket_without_reserves", plainConfig("1", "2"), plainFunds(), dist)
+	h.swap(1, []pair{{1, 100, 2}})
+	h.swap(2, nil)
+	h.mint(1, []int{1, 2}, []int64{1000, 500})
+	h.swap(1, []pair{{1, 100, 2}})
+	hs = append(hs, h)
 	// a validator upserts its staking pool
 	h = startHist("scenario:upsert_staking_pool_hook", plainConfig("1", "1"), plainFunds(), dist)
 	h.mint(1, []int{1, 2}, []int64{4000, 4000})
